@@ -344,6 +344,53 @@ def inherit(ctx, vb):
         ok3 = r[1].endswith('Option::None') and base(tv['functions']) and base(tv['type_']) and base(tv['base_field']) and \
             strip(tv['functions'])[0] == 'field' and strip(tv['functions'])[2] == 'functions' and strip(tv['type_'])[2] == 'type_'
         ctx.ob(['C06', 'C04'], 'R-SLP', 'VB|inherited', ok3, 'without an own block the functions and table type are the base\'s, the pointer is the base\'s', loc(x['span']))
+    # the own-block outcomes are chosen by the presence of a vftable block alone (Some/None of the parameter), never by whether the
+    # block lists any function: an empty `vftable {}` still declares a table (its struct is generated, its pointer field exists)
+    vfp = [i for i in range(1, vb.nargs + 1) if vb.local_ty(i).startswith('std::option::Option<std::vec::Vec<%s' % FUNCTION)]
+    okp = False
+    detp = 'vftable-functions parameter not found'
+    if len(vfp) == 1:
+        A_ = ('arg', vfp[0], vb.names.get(vfp[0], '_%d' % vfp[0]))
+        mentions = lambda e_: any(isinstance(y, tuple) and y[:2] == A_[:2] for y in walk(e_))
+        bad_ = []
+        tested = False
+        for s_ in vb.switches():
+            c_ = expand(vb, s_['cond'])
+            if not mentions(c_):
+                continue
+            cc_ = strip(c_)
+            while cc_[0] == 'un' and cc_[1] == 'Not':
+                cc_ = strip(cc_[2])
+            if (cc_[0] == 'discr' and strip(cc_[1])[:2] == A_[:2]) or ((is_call(cc_, 'Option::<T>::is_some') or is_call(cc_, 'Option::<T>::is_none')) and strip(cc_[2][0])[:2] == A_[:2]):
+                tested = True
+                continue
+            def rooted(x):
+                x = strip(x)
+                while True:
+                    if x[0] in ('try',) or (x[0] == 'payload' and x[2] in ('Some',)):
+                        x = strip(x[1])
+                    elif x[0] == 'call' and x[2] and re.search(r'(::deref|::as_slice|::as_ref|::as_deref|::borrow|Option::<T>::unwrap\w*|::iter|::clone)$', x[1]):
+                        x = strip(x[2][0])
+                    else:
+                        return x[:2] == A_[:2]
+            # a test on the *contents* of the declared list: emptiness, a length compared with a constant, first/last
+            content = False
+            if cc_[0] == 'call' and re.search(r'::(is_empty|first|last|contains|any|all)$', cc_[1]) and cc_[2] and rooted(cc_[2][0]):
+                content = True
+            cp_ = cmp_parts(cc_)
+            if cp_:
+                for u_, w_ in ((cp_[1], cp_[2]), (cp_[2], cp_[1])):
+                    if is_call(strip(u_), '::len') and rooted(strip(u_)[2][0]) and strip(w_)[0] == 'int':
+                        content = True
+            if content:
+                bad_.append(show(cc_)[:80])
+        for c_ in vb.calls(lambda r: r['path'] and re.search(r'Option::<T>::(unwrap_or_default|unwrap_or|unwrap_or_else|map_or|map_or_else|is_some_and|filter)$', r['path'])):
+            if strip(vb.expr_of_operand(c_['term']['args'][0]))[:2] == A_[:2]:
+                bad_.append(short(c_['path']) + ' on the parameter')
+        okp = tested and not bad_
+        detp = 'decided by Some/None of the parameter: %s; other tests on it: %s' % (tested, bad_)
+    ctx.ob(['C06', 'C04', 'C14'], 'R-GUARD', 'VB|own-block-iff-declared', okp,
+           'whether a type has its own vftable is decided by the presence of a vftable block only, not by its contents: %s' % detp, where)
     # D3 (C14-D4): the generated vftable item is registered on every successful own-block path
     ai = [c for c in vb.calls(lambda r: r['path'] and r['path'].endswith('SemanticState::add_item'))]
     okd3 = False
@@ -417,7 +464,7 @@ def vtype(ctx):
             if e_[0] == 'bin' and e_[1] == 'Add':
                 acc_, inc_ = strip(e_[2]), unwrap_all(e_[3])
                 oks = acc_[0] == 'arg' and is_call(inc_, 'Region::size') and strip(inc_[2][0])[0] == 'arg' and strip(inc_[2][0])[1] != acc_[1] and \
-                    not any(re.search(r'Iterator::(rev|skip|take|filter|step_by)$', c_[3]) for c_ in calls_in(sz[2][0]))
+                    not any(re.search(r'Iterator::(rev|skip|take|filter|step_by|map_while|scan|take_while|skip_while|fuse|cycle)$', c_[3]) for c_ in calls_in(sz[2][0]))
     if not oks and lb and sz[0] == 'var' and is_call(isr['alignment'], 'pointer_size'):
         # running total kept in the loop that builds the regions: starts at 0 and grows by the size of the region pushed in the same trip
         defs_ = bt.defs().get(sz[1], [])
@@ -455,7 +502,7 @@ def vtype(ctx):
                    and r['is_base'] == ('int', 0, 'bool') and ty[0] == 'agg' and ty[1].endswith('Type::Function') and fld(dict(ty[2])['0'], 'calling_convention')
                    and any(strip(x) == ('field', farg, 'arguments') for x in walk(dict(ty[2])['1'])) and any(strip(x) == ('field', farg, 'return_type') for x in walk(dict(ty[2])['2'])))
             chain = [c[1] for c in calls_in(dict(ty[2])['1'])]
-            okf = okf and not any(re.search(r'Iterator::(rev|skip|take|filter|step_by|chain)$', c) for c in chain)
+            okf = okf and not any(re.search(r'Iterator::(rev|skip|take|filter|step_by|chain|map_while|scan|take_while|skip_while|fuse|cycle)$', c) for c in chain)
     ctx.ob(['C04', 'C16', 'C17'], 'R-SLP', 'F2R|slot-from-function', okf,
            'a slot region takes visibility, name, doc, calling convention, argument list (in order) and return type from its own function: %s' % det, loc(f2r.span))
     # receiver types in the slot signature
@@ -676,7 +723,7 @@ def hierarchy(ctx):
     L, src = main
     h, body, _ = L
     over_self = any(strip(x) == ('field', ('arg', 1, f.names.get(1, '_1')), 'regions') for x in walk(src)) and not any(
-        re.search(r'Iterator::(rev|skip|take|step_by|chain|skip_while|take_while|filter_map)$', c_[3]) for c_ in calls_in(src)) and base_filter_only(src)
+        re.search(r'Iterator::(rev|skip|take|step_by|chain|skip_while|take_while|filter_map|map_while|scan|fuse|cycle)$', c_[3]) for c_ in calls_in(src)) and base_filter_only(src)
     pushes = [c for c in f.calls(lambda r: r['block'] in body and r['path'] and r['path'].endswith('Vec::<T, A>::push'))]
     recs = [c for c in f.calls(lambda r: r['block'] in body and r['path'] == f.id)]
     ext = [c for c in f.calls(lambda r: r['block'] in body and r['gpath'] and r['gpath'].endswith('Extend::extend'))]
